@@ -8,7 +8,7 @@ from props import common as K
 
 META = {
     "level": "other",
-    "technique": "static analysis of type-checked MIR (rustc_private driver): who-may-construct enumeration, contradiction rule on merge loops, guard dominance, decision of comparison-only predicates on every weak ordering, bound-kind comparison discipline",
+    "technique": "static analysis of type-checked MIR (rustc_private driver): who-may-construct enumeration, contradiction rule on merge loops, guard dominance, decision of comparison-only predicates on every weak ordering, bound-kind comparison discipline; abstract interpretation of the sweep loops (trim, difference, is_encompassed, contains_item) over the finite order domain of their cursors' bounds, every round checked against the set operation's admissible actions",
     "explanation": "Canonical-form discipline: the invariant-establishing unsafe constructor is called only from the reviewed "
                    "sites and the chain types' fields are private; every block stored by a chain-producing function is "
                    "re-created through Block::new (canonical form) or copied from an existing chain; every normalisation "
@@ -18,9 +18,15 @@ META = {
                    "checked operations; the four order predicates of Block (contains, intersects, is_encompassed, is_equivalent) "
                    "are decided on every weak ordering of the bounds and equal the interval definitions; a merge replaces a "
                    "stored block only by one with a larger upper bound; an upper and a lower bound are only ever compared as "
-                   "`upper < lower` / `lower <= upper` (inclusive ranges).",
-    "not_decided": ["exactness of trim / difference / is_encompassed / eq / contains_item as set operations (loop invariants "
-                    "over runtime sequences)", "range-to-prefix decomposition", "text / serde round-trip equality"],
+                   "`upper < lower` / `lower <= upper` (inclusive ranges); every round of Chain::trim / difference / "
+                   "is_encompassed / contains_item, interpreted from the MIR for every placement of the cursors' bounds "
+                   "(equal / adjacent / apart / at either end of the number space) and every fork on unknown sequence "
+                   "remainders, consumes and emits exactly what intersection / difference / subset / membership allow "
+                   "(prologue and all ways of ending the sweep included); a hand-written Option<blocks> deserialiser "
+                   "answers None only for the legacy word \"none\".",
+    "not_decided": ["the induction from admissible rounds to the whole sweep (written in DESIGN 6.3, not machine-checked); "
+                    "Chain::eq / Ord and the merge passes of from_iter as set operations (structural rules only)",
+                    "range-to-prefix decomposition", "text / serde round-trip equality"],
     "trusted_base": ["std sort_unstable_by_key", "Block::new implementations produce the canonical form of (min, max)"],
 }
 
